@@ -1,4 +1,4 @@
-From V Require Import Common.Base C11.Str C11.EsbuildResolve C11.NodeSpec C11.Scope C11.ResolveProofs.
+From V Require Import Common.Base C11.Str C11.EsbuildResolve C11.NodeSpec C11.SortLemmas C11.Scope C11.ResolveProofs.
 Local Open Scope string_scope.
 (* non-vacuity: concrete non-trivial values meeting each theorem's hypotheses *)
 Example name_ex : parse_package_name (s_ "@scope/pkg/lib/a.js") = Some (s_ "@scope/pkg", s_ "./lib/a.js").
@@ -59,3 +59,31 @@ Example scope_excludes :
   /\ in_scope_exports w_mixed (s_ "./a") = false /\ in_scope_exports w_index (s_ "./a") = false
   /\ in_scope_imports w_hash_slash (s_ "#/a") = false /\ in_scope_imports w_url_target (s_ "#fs") = false.
 Proof. repeat split; vm_compute; reflexivity. Qed.
+
+(* keys with several "*" and empty-segment-free odd layouts are inside the domain *)
+Definition ex_multi : json :=
+  JObj [ (s_ "./a*b*", JStr (s_ "./1/*.js")); (s_ "./a*", JStr (s_ "./2/*.js")); (s_ "./a*c", JStr (s_ "./3/*.js")) ].
+Example scope_multi : in_scope_exports ex_multi (s_ "./axc") = true
+  /\ node_exports_resolve ex_multi (s_ "./axc") [] = OResolved (s_ "/3/x.js").
+Proof. split; vm_compute; reflexivity. Qed.
+
+(* each refuted witness keeps the documented and fragment parts and loses
+   exactly the "no refuted shape" part, through its own detector *)
+Example witness_shapes :
+  (documented_ok w_pattern_base (s_ "./foo") && fragment_ok w_pattern_base (s_ "./foo")
+   && negb (no_refuted_shape false w_pattern_base (s_ "./foo")) && shape_pattern_base (s_ "./foo") (s_ "./foo*")
+   && documented_ok w_upper (s_ "./x") && fragment_ok w_upper (s_ "./x")
+   && negb (no_refuted_shape false w_upper (s_ "./x")) && shape_segment_target (s_ "./lib/NODE_MODULES/x.js")
+   && documented_ok w_star_all (s_ "./../secret.js") && fragment_ok w_star_all (s_ "./../secret.js")
+   && negb (no_refuted_shape false w_star_all (s_ "./../secret.js")) && shape_segment_match (s_ "../secret.js")
+   && documented_ok w_dup (s_ "./a") && fragment_ok w_dup (s_ "./a") && negb (no_refuted_shape false w_dup (s_ "./a"))
+   && documented_ok w_mixed (s_ "./a") && fragment_ok w_mixed (s_ "./a") && negb (no_refuted_shape false w_mixed (s_ "./a"))
+   && documented_ok w_index (s_ "./a") && fragment_ok w_index (s_ "./a") && negb (no_refuted_shape false w_index (s_ "./a"))
+   && documented_ok w_hash_slash (s_ "#/a") && fragment_ok w_hash_slash (s_ "#/a")
+   && negb (no_refuted_shape true w_hash_slash (s_ "#/a")) && shape_hash_slash (s_ "#/a")
+   && documented_ok w_url_target (s_ "#fs") && fragment_ok w_url_target (s_ "#fs")
+   && negb (no_refuted_shape true w_url_target (s_ "#fs")) && shape_url_target true (s_ "node:fs")) = true.
+Proof. vm_compute. reflexivity. Qed.
+
+Example ordinary_ex : ordinary_path (s_ "lib/a.b/c-d.js") = true /\ ordinary_path (s_ "lib//x.js") = false.
+Proof. split; vm_compute; reflexivity. Qed.
